@@ -4,11 +4,14 @@ package main
 
 import (
 	"context"
+	"encoding/binary"
 	"errors"
 	"fmt"
 	"sort"
 	"strings"
 	"sync"
+
+	"github.com/cespare/xxhash/v2"
 
 	"github.com/NethermindEth/juno/core"
 	"github.com/NethermindEth/juno/db"
@@ -214,8 +217,14 @@ func (r *runner) runTwin(sc *Scenario) (*twin, bool) {
 	fdb.onCommit = func(idx int, _ string) {
 		tw.crash = append(tw.crash, crashPoint{K: idx, Step: cur, Img: image(store)})
 	}
-	n := &Node{sc: sc, fdb: fdb, bc: sc.open(fdb)}
+	n := newNode(sc, fdb)
 	stepCommits := make([]int, len(sc.Steps))
+	// the chain part of the image (see chainDigest) the first time each (head, floor) was reached
+	type seenImg struct {
+		dig  string
+		step int
+	}
+	seen := map[string]seenImg{worldKey(&sc.BaseWorld): {chainDigest(store), -1}}
 	for i := range sc.Steps {
 		cur = i
 		s := &sc.Steps[i]
@@ -223,6 +232,7 @@ func (r *runner) runTwin(sc *Scenario) (*twin, bool) {
 		tw.trace.before(n)
 		err := n.exec(s)
 		r.res.Hit("op:" + s.Op)
+		r.hitFeatures(sc, i)
 		if s.Op == "rejected" && err == nil {
 			r.res.Hit("rejected:" + errClass(n.rejectErr))
 		}
@@ -240,6 +250,26 @@ func (r *runner) runTwin(sc *Scenario) (*twin, bool) {
 		r.res.Hit(fmt.Sprintf("commits-per-%s:%d", s.Op, min(nc, 9)))
 		tw.digAfter = append(tw.digAfter, digest(store))
 		tw.looseAfter = append(tw.looseAfter, looseDigest(store))
+		// "fully present or fully absent": whenever the node holds the same chain (same head, same
+		// retention floor) again — after a RevertHead, after a revert-and-restore, through Finalise
+		// instead of Store — the chain part of the database must be what it was the first time
+		cd, wk := chainDigest(store), worldKey(&s.After)
+		if first, ok := seen[wk]; !ok {
+			seen[wk] = seenImg{cd, i}
+		} else if first.dig != cd {
+			r.res.Hit("same-chain-image-compared")
+			var ref db.KeyValueStore = memory.New()
+			if first.step >= 0 {
+				ref = tw.crashAfter(first.step)
+			} else if sc.Base != nil {
+				ref = sc.Base
+			}
+			r.violate(sc, "same-chain-different-image-after-"+s.Op, fmt.Sprintf("after step %d %s the node holds the chain it held after step %d (head %d, floor %d), "+
+				"but the block / class / state buckets of the database differ: %s", i, s, first.step, s.After.Height(), s.After.Floor,
+				diffChainImages(store, ref)), map[string]any{"step": i, "fault": "none"})
+		} else {
+			r.res.Hit("same-chain-image-compared")
+		}
 		var ps problems
 		cause, what := "", ""
 		if lazyObs {
@@ -347,6 +377,11 @@ func (r *runner) checkCrashPoints(sc *Scenario, tw *twin) {
 		r.checkRestartedImage(sc, cp.Img, w, ghost, "crash-", extra)
 		if s.Op == "prune" && d != tw.digAfter[cp.Step] {
 			r.checkPruneResumes(sc, cp, tw, extra)
+			if d != digBefore {
+				// a torn multi-batch prune that is NOT resumed: the rest of the history runs on
+				// the node whose floor lies between the old one and the target
+				r.continueOnMidPrune(sc, cp, w, extra)
+			}
 		}
 		r.res.Case(fmt.Sprintf("%s/%d/crash/%d", sc.Name, sc.Seed, cp.K), true)
 	}
@@ -477,7 +512,7 @@ func (r *runner) runFault(sc *Scenario, tw *twin, k int) {
 	defer cleanup()
 	fdb := NewFaultDB(store)
 	fdb.failAt = k
-	n := &Node{sc: sc, fdb: fdb, bc: sc.open(fdb)}
+	n := newNode(sc, fdb)
 	tr := newTrace(sc, r)
 	failedStep := -1
 	failedOp := ""
@@ -565,7 +600,15 @@ func (r *runner) runFault(sc *Scenario, tw *twin, k int) {
 		var ps problems
 		if singleCommitOp(s.Op) {
 			if d := digest(store); d != digBefore {
-				ps.add("disk-changed-by-failed-"+s.Op, "the call returned the injected error but the store changed: %s", diffImagesOf(store, tw.imgBefore(i, sc), true))
+				df := diffImagesOf(store, tw.imgBefore(i, sc), true)
+				if fdb.initWritesBetween(tr.pre, fdb.Commits()+1) > 0 && strings.Count(df, "=") == strings.Count(df, "AggregatedBloomFilters:") {
+					// a lazy filter initialisation inside the failed call persisted a complete window
+					// before the call's own commit failed (on a pruning node the re-written window may
+					// lack the bits of pruned blocks): allowed, the windows are checked below
+					r.res.Hit("failed-call-kept-init-window-write:" + s.Op)
+				} else {
+					ps.add("disk-changed-by-failed-"+s.Op, "the call returned the injected error but the store changed: %s", df)
+				}
 			}
 		}
 		w := before
@@ -575,6 +618,9 @@ func (r *runner) runFault(sc *Scenario, tw *twin, k int) {
 		}
 		if s.Op == "prune" {
 			w = midPruneWorld(store, before, &s.After, func(sig, what string) { ps.add(sig, "%s", what) })
+			if sc.ViaPruner {
+				w.Asked = s.PruneTo
+			}
 		}
 		// in-memory filter vs what a restart would build from the surviving disk
 		if mem, err := n.memFilter(); err == nil && (s.Op == "store" || s.Op == "finalise" || s.Op == "revert") {
@@ -597,7 +643,7 @@ func (r *runner) runFault(sc *Scenario, tw *twin, k int) {
 		note(ps, "after-failed-"+s.Op+"-commit-")
 		// in every other run a DIFFERENT call comes between the failure and the retry: the head is
 		// offered again; it must be refused and must change nothing
-		if head := before.Head(); head != nil && !initFault && !sc.Pruning && singleCommitOp(s.Op) && (uint64(k)+sc.Seed)%2 == 1 {
+		if head := before.Head(); head != nil && !initFault && singleCommitOp(s.Op) && (uint64(k)+sc.Seed)%2 == 1 {
 			other := &Step{Op: "rejected", B: head, After: *before}
 			d0 := digest(store)
 			tr.before(n)
@@ -638,7 +684,19 @@ func (r *runner) runFault(sc *Scenario, tw *twin, k int) {
 	}
 	last := &sc.Steps[len(sc.Steps)-1].After
 	var ps problems
-	if d := looseDigest(store); d != tw.looseAfter[len(sc.Steps)-1] {
+	if sc.Pruning {
+		// the event index of a pruning node is not a function of the chain alone (a filter rebuilt
+		// from the floor lacks the bits of pruned blocks, one resumed from a snapshot keeps them):
+		// the chain part must be the fault-free run's, the event index must describe the chain
+		if chainDigest(store) != chainDigest(tw.finalImg) {
+			ps.add("final-image-differs", "the chain part of the image at the end of the history differs from the fault-free run: %s", diffChainImages(store, tw.finalImg))
+		}
+		if rf, err := restartFilter(store, true); err != nil {
+			ps.add("running-filter-cannot-initialise", "initialising the running event filter from the final image: %v", err)
+		} else {
+			sc.U.filterVsChain(rf, last, "restarted-", &ps, r.res)
+		}
+	} else if d := looseDigest(store); d != tw.looseAfter[len(sc.Steps)-1] {
 		ps.add("final-image-differs", "the image at the end of the history differs from the fault-free run: %s", diffImagesOf(store, tw.finalImg, true))
 	}
 	storeProbe(n.bc, last, &ps, "")
@@ -689,4 +747,214 @@ func (r *runner) runScenario(build func() *Scenario) {
 	wg.Wait()
 	r.res.Hit("scenario:" + sc.Name)
 	r.res.Sample(8, sc.Describe())
+}
+
+// hitFeatures counts, for the evidence histogram, the rarely taken branches of writeBlockContent /
+// deleteBlockContent / the pruner's per-block sweep that step i of the scenario goes through.
+func (r *runner) hitFeatures(sc *Scenario, i int) {
+	s := &sc.Steps[i]
+	var b *lib.Bundle
+	pre := ""
+	switch s.Op {
+	case "store", "finalise":
+		b, pre = s.B, "stored-block:"
+	case "revert":
+		b, pre = sc.worldBefore(i).Head(), "reverted-block:"
+	case "prune":
+		bw := sc.worldBefore(i)
+		for n := bw.Floor; n < s.PruneTo && int(n) <= bw.Height(); n++ {
+			r.hitBlockFeatures("pruned-block:", bw.Chain[n], bw)
+		}
+		if s.PruneTo%core.NumBlocksPerFilter == 0 && s.PruneTo > 0 {
+			r.res.Hit("prune-target:window-boundary")
+		}
+		if s.PruneTo == uint64(bw.Height()) {
+			r.res.Hit("prune-target:head")
+		}
+		switch lag := uint64(core.BlockHashLag); {
+		case s.PruneTo < lag:
+			r.res.Hit("prune-target:below-block-hash-lag")
+		case s.PruneTo == lag:
+			r.res.Hit("prune-target:at-block-hash-lag")
+		default:
+			r.res.Hit("prune-target:above-block-hash-lag")
+		}
+		switch {
+		case s.BatchBytes == 0:
+			r.res.Hit("prune-batch:one-block")
+		case s.BatchBytes == oneBatch:
+			r.res.Hit("prune-batch:single")
+		default:
+			r.res.Hit("prune-batch:few-blocks")
+		}
+		return
+	default:
+		return
+	}
+	if b != nil {
+		r.hitBlockFeatures(pre, b, sc.worldBefore(i))
+	}
+}
+
+func (r *runner) hitBlockFeatures(pre string, b *lib.Bundle, before *World) {
+	d := b.SU.StateDiff
+	l1 := false
+	for _, tx := range b.Block.Transactions {
+		if _, ok := tx.(*core.L1HandlerTransaction); ok {
+			l1 = true
+		}
+	}
+	flag := func(name string, on bool) {
+		if on {
+			r.res.Hit(pre + name)
+		}
+	}
+	flag("l1-handler-tx", l1)
+	flag("no-txs", len(b.Block.Transactions) == 0)
+	flag("declares-cairo0", len(d.DeclaredV0Classes) > 0)
+	flag("declares-sierra-casm-v1", len(d.DeclaredV1Classes) > 0 && b.Block.ProtocolVersion < "0.14.1")
+	flag("declares-sierra-casm-v2", len(d.DeclaredV1Classes) > 0 && b.Block.ProtocolVersion >= "0.14.1")
+	flag("migrates-class", len(d.MigratedClasses) > 0)
+	flag("replaces-class", len(d.ReplacedClasses) > 0)
+	flag("deploys", len(d.DeployedContracts) > 0)
+	flag("empty-diff", d.Length() == 0)
+	flag("last-of-window", (b.Block.Number+1)%core.NumBlocksPerFilter == 0)
+	flag("first-of-window", b.Block.Number%core.NumBlocksPerFilter == 0 && b.Block.Number > 0)
+	if h := before.Head(); h != nil && pre == "stored-block:" {
+		flag("protocol-version-change", h.Block.ProtocolVersion != b.Block.ProtocolVersion)
+	}
+}
+
+// worldKey identifies the chain a node holds: head hash, height, retention floor.
+func worldKey(w *World) string {
+	if w.Head() == nil {
+		return "empty"
+	}
+	return fmt.Sprintf("%s/%d/%d", w.Head().Block.Hash.String(), w.Height(), w.Floor)
+}
+
+// chainSkip: buckets that are NOT a function of the chain a node holds: the event index (running
+// filter snapshot and persisted windows: a function of the history — stale bits of reverted blocks
+// are allowed), the L1 head, and the trie2 node buckets (unreachable garbage after a revert, see
+// looseSkip).
+func chainSkip(k []byte) bool {
+	if len(k) == 0 {
+		return false
+	}
+	switch db.Bucket(k[0]) {
+	case db.AggregatedBloomFilters, db.RunningEventFilter, db.L1Height:
+		return true
+	}
+	return looseSkip(k)
+}
+
+// chainDigest hashes the chain part of an image: blocks, lookups, classes, class metadata, state
+// and state history.
+func chainDigest(m db.KeyValueStore) string {
+	it, err := m.NewIterator(nil, false)
+	if err != nil {
+		panic(err)
+	}
+	defer it.Close()
+	h := xxhash.New()
+	var lenb [8]byte
+	for ok := it.First(); ok; ok = it.Next() {
+		k := it.Key()
+		if chainSkip(k) {
+			continue
+		}
+		v, err := it.Value()
+		if err != nil {
+			panic(err)
+		}
+		v = canonValue(k, v)
+		binary.BigEndian.PutUint64(lenb[:], uint64(len(k)))
+		h.Write(lenb[:])
+		h.Write(k)
+		binary.BigEndian.PutUint64(lenb[:], uint64(len(v)))
+		h.Write(lenb[:])
+		h.Write(v)
+	}
+	return fmt.Sprintf("%016x", h.Sum64())
+}
+
+// diffChainImages names the buckets in which the chain parts of two images differ.
+func diffChainImages(a, b db.KeyValueStore) string {
+	dump := func(s db.KeyValueStore) map[string]string {
+		out := map[string]string{}
+		it, err := s.NewIterator(nil, false)
+		if err != nil {
+			panic(err)
+		}
+		defer it.Close()
+		for ok := it.First(); ok; ok = it.Next() {
+			if chainSkip(it.Key()) {
+				continue
+			}
+			v, _ := it.Value()
+			out[string(it.Key())] = string(canonValue(it.Key(), v))
+		}
+		return out
+	}
+	da, dbb := dump(a), dump(b)
+	counts := map[string]int{}
+	for k, v := range da {
+		if w, ok := dbb[k]; !ok {
+			counts[db.Bucket(k[0]).String()+":only-now"]++
+		} else if w != v {
+			counts[db.Bucket(k[0]).String()+":value"]++
+		}
+	}
+	for k := range dbb {
+		if _, ok := da[k]; !ok {
+			counts[db.Bucket(k[0]).String()+":only-first-time"]++
+		}
+	}
+	keys := make([]string, 0, len(counts))
+	for k := range counts {
+		keys = append(keys, fmt.Sprintf("%s=%d", k, counts[k]))
+	}
+	sort.Strings(keys)
+	return fmt.Sprint(keys)
+}
+
+// continueOnMidPrune: the process died between two batches of the prune of step cp.Step and the
+// prune is NOT resumed: a new process runs the rest of the history on the image whose retention
+// floor lies somewhere between the old floor and the target. After every later call the node must
+// be in the world of the fault-free run, with the floor this run has really reached.
+func (r *runner) continueOnMidPrune(sc *Scenario, cp crashPoint, w0 *World, extra map[string]any) {
+	store := cp.Img.Copy()
+	fdb := NewFaultDB(store)
+	n := newNode(sc, fdb)
+	floor := w0.Floor
+	r.res.Hit("continued-on-mid-prune-image")
+	var all problems
+	for j := cp.Step + 1; j < len(sc.Steps); j++ {
+		s := &sc.Steps[j]
+		if s.Op == "revert" && uint64(sc.worldBefore(j).Height()) <= floor {
+			break // (cannot happen: the floor here is never above the fault-free run's)
+		}
+		if err := n.exec(s); err != nil {
+			all.add("later-call-fails", "step %d %s on the node that continued from the image after commit %d (floor %d): %v", j, s, cp.K, floor, err)
+			break
+		}
+		if s.Op == "prune" && s.PruneTo > floor && int(s.PruneTo) <= s.After.Height() {
+			floor = s.PruneTo
+		}
+		w := s.After
+		w.Floor = floor
+		var ps problems
+		if s.Op == "kill" || s.Op == "restart" {
+			ps = checkNode(n.bc, &w, nil, nil)
+			checkRetention(store, n.bc, &w, &ps)
+		} else {
+			ps, _, _ = r.liveChecks(n, store, &w, nil, s.Op != "prune")
+		}
+		for _, p := range ps {
+			p.Sig = "later-" + p.Sig
+			all = append(all, p)
+		}
+		r.res.Hit("continued-on-mid-prune-image:" + s.Op)
+	}
+	r.report(sc, all, "crash-in-prune-not-resumed-", extra)
 }
